@@ -488,6 +488,8 @@ class RealRun:
     def _val(v):
         """JSON value -> the object handed to resolve(): ["<exc>", name, msg] stands for an exception INSTANCE
         used as data (fut.resolve(TimeoutError("..."))), everything else is itself."""
+        if isinstance(v, list) and len(v) == 2 and v[0] == "<fut>":
+            return RealRun._current._fut(v[1])
         if isinstance(v, list) and len(v) == 3 and v[0] == "<exc>":
             import builtins
 
@@ -498,8 +500,16 @@ class RealRun:
 
     _made_exc: list = []  # exception instances handed to resolve() as data (identity matters below)
 
+    _current = None  # the RealRun being driven (values that name a future need its table)
+
     @staticmethod
     def _norm(v):
+        cur = RealRun._current
+        if cur is not None and type(v).__name__ == "SimFuture":
+            for name, f in cur.futures.items():
+                if f is v:
+                    return ["<fut>", name]
+            return ["<fut>", "?"]
         if isinstance(v, BaseException):
             return ["<exc>", type(v).__name__, str(v.args[0]) if v.args else ""]
         if isinstance(v, tuple):
@@ -580,6 +590,7 @@ class RealRun:
                 proc = run._proc(action, pid, event)
                 return GenWrapper(proc) if action.get("wrapped") else proc
 
+        RealRun._current = self
         self.entities = [ScriptEntity(i) for i in range(self.p["n_ent"])]
         pre = self.p["pre"]
         created = {}
@@ -596,11 +607,13 @@ class RealRun:
             kw["trace_recorder"] = self.trace_recorder
         if self.p.get("start_ns"):
             kw["start_time"] = Instant(self.p["start_ns"])
-        self.sim = Simulation(
-            entities=list(self.entities),
-            end_time=Instant(end) if end is not None else None,
-            **kw,
-        )
+        start = self.p.get("start_ns") or 0
+        if end is not None and self.p.get("use_duration") and end >= start and start + delay_ns((end - start) / NS) == end:
+            # the same horizon expressed as duration=<float seconds> (only when the float names exactly this nanosecond)
+            kw["duration"] = (end - start) / NS
+        else:
+            kw["end_time"] = Instant(end) if end is not None else None
+        self.sim = Simulation(entities=list(self.entities), **kw)
         self.clock = self.sim._clock
         for i in range(n_before, len(pre)):
             created[i] = self._mk(pre[i], pre[i]["t"])
